@@ -79,33 +79,46 @@ func (c *Ctx) Eff(cfg string) *effects.Analysis {
 	return a
 }
 
-// ScopeProblems adds the effect-analysis problems that can influence this
-// property's obligations: those arising in a function that some function named
-// by an obligation can reach (whole-program problems always count).
+// ScopeProblems adds the function-local problems (structural assertions,
+// effect-analysis UNDECIDEDs) that can influence this property's obligations:
+// those arising in a function that some function named by an obligation can
+// reach. Whole-program problems always count.
 func (c *Ctx) ScopeProblems() {
 	for _, cfg := range c.loaded {
-		a := c.eff[cfg]
-		if a == nil {
+		p := c.progs[cfg]
+		if p == nil {
 			continue
 		}
 		var roots []*ssa.Function
 		for _, o := range c.Set.Obls {
-			if o.Config != cfg {
+			if o.Config != cfg && !strings.HasPrefix(o.Config, cfg+"+") {
 				continue
 			}
 			parts := strings.SplitN(o.Key, "/", 3)
 			if len(parts) >= 2 {
-				if f := a.P.ByName[parts[1]]; f != nil {
+				name := parts[1]
+				if i := strings.Index(name, "["); i > 0 {
+					name = name[:i]
+				}
+				if f := p.ByName[name]; f != nil {
 					roots = append(roots, f)
 				}
 			}
 		}
-		reach := a.P.Reachable(roots)
-		for i, pr := range a.Problems {
-			if f := a.ProblemFn[i]; f == nil || reach[f] || len(roots) == 0 {
-				c.Set.Problem("[%s] %s", cfg, pr)
+		reach := p.Reachable(roots)
+		emit := func(f *ssa.Function, msg string) {
+			if f == nil || reach[f] || len(roots) == 0 {
+				c.Set.Problem("[%s] %s", cfg, msg)
 			} else {
-				c.Set.Note("[%s] not relevant to this property's obligations (arises in %s, which none of them reaches): %s", cfg, load.ShortName(f), pr)
+				c.Set.Note("[%s] not relevant to this property's obligations (arises in %s, which none of them reaches): %s", cfg, load.ShortName(f), msg)
+			}
+		}
+		for _, fp := range p.FnProblems {
+			emit(fp.Fn, fp.Msg)
+		}
+		if a := c.eff[cfg]; a != nil {
+			for i, pr := range a.Problems {
+				emit(a.ProblemFn[i], pr)
 			}
 		}
 	}
